@@ -17,8 +17,9 @@
 (*     each of them needs write or admin;                                  *)
 (*   * Reach(m, cred, auth): who gets through.                             *)
 (*                                                                         *)
-(* The state space is the full matrix  method x credential class x         *)
-(* authentication on/off  -- one state per cell, no transitions.  TLC      *)
+(* The state space is the full matrix  method x credential class x form of *)
+(* presentation x authentication on/off -- one state per cell, no          *)
+(* transitions (histories of credential use are in RpcSession.tla).  TLC   *)
 (* checks the lattice / monotonicity / exposure invariants in every cell   *)
 (* and prints every cell with its expected verdict; harness/drivers/rpc    *)
 (* performs every cell as one real JSON-RPC call (HTTP, WebSocket for      *)
@@ -30,8 +31,8 @@ EXTENDS Naturals, Sequences, FiniteSets, TLC, Json
 
 CONSTANT Emit          \* TRUE: print the matrix and the tables for the driver
 
-VARIABLES m, cred, auth
-vars == <<m, cred, auth>>
+VARIABLES m, cred, form, auth
+vars == <<m, cred, form, auth>>
 
 (***************************************************************************)
 (* Permissions.  A token carries a SET of permission names; the levels are *)
@@ -70,6 +71,29 @@ Granted(c) ==
 
 \* c2 is at least as strong a credential as c1
 Stronger(c1, c2) == Granted(c1) \subseteq Granted(c2)
+
+(***************************************************************************)
+(* Presentation forms: HOW a credential reaches the server.                *)
+(*   bearer  `Authorization: Bearer <token>`          (the canonical form) *)
+(*   query   `?token=<token>` in the URL              (accepted as well)   *)
+(*   bare    `Authorization: <token>`                 no scheme            *)
+(*   lower   `Authorization: bearer <token>`          wrong case           *)
+(*   basic   `Authorization: Basic <token>`           another scheme       *)
+(* and for a caller WITHOUT credentials the content type of the POST:      *)
+(*   json    `Content-Type: application/json`                              *)
+(*   urlenc  `Content-Type: application/x-www-form-urlencoded` (what       *)
+(*           `curl -d` sends), the body being the same JSON-RPC request    *)
+(* A credential that is not presented in a well-formed way is a malformed  *)
+(* credential: with authentication enabled it grants nothing, whatever the *)
+(* token inside is.  With authentication disabled nobody looks at it.      *)
+(***************************************************************************)
+TokenForms == {"bearer", "query", "bare", "lower", "basic"}
+NoCredForms == {"json", "urlenc"}
+WellFormed == {"bearer", "query"}
+FormsOf(c) == IF c = "none" THEN NoCredForms ELSE TokenForms
+
+\* the class a presented credential counts as
+Eff(c, f) == IF c = "none" THEN "none" ELSE IF f \in WellFormed THEN c ELSE "garbage"
 
 (***************************************************************************)
 (* The policy table.                                                       *)
@@ -141,24 +165,25 @@ ASSUME TableSize == Cardinality(Methods) = 72
 (***************************************************************************)
 (* Who gets through.                                                       *)
 (***************************************************************************)
-Reach(x, c, a) == (~a) \/ (Required[x] \in Granted(c))
+Reach(x, c, f, a) == (~a) \/ (Required[x] \in Granted(Eff(c, f)))
 
 \* how a refused call is refused: the token itself is rejected (HTTP 401) or the permissioned proxy answers
 \* "missing permission"
-Refusal(x, c, a) ==
-    IF Reach(x, c, a) THEN "-" ELSE IF c \in BadCreds THEN "unauthorized" ELSE "missing-permission"
+Refusal(x, c, f, a) ==
+    IF Reach(x, c, f, a) THEN "-" ELSE IF Eff(c, f) \in BadCreds THEN "unauthorized" ELSE "missing-permission"
 
 (***************************************************************************)
 (* The matrix as a state space                                             *)
 (***************************************************************************)
-Init == m \in Methods /\ cred \in Creds /\ auth \in BOOLEAN
+Init == m \in Methods /\ cred \in Creds /\ form \in FormsOf(cred) /\ auth \in BOOLEAN
 Next == UNCHANGED vars
 Spec == Init /\ [][Next]_vars
 
-TypeOK == m \in Methods /\ cred \in Creds /\ auth \in BOOLEAN
+TypeOK == m \in Methods /\ cred \in Creds /\ form \in FormsOf(cred) /\ auth \in BOOLEAN
 
-\* a stronger credential reaches a superset
-Monotone == \A c2 \in Creds : (Stronger(cred, c2) /\ Reach(m, cred, auth)) => Reach(m, c2, auth)
+\* a stronger credential (presented the same way) reaches a superset
+Monotone == \A c2 \in Creds \ {"none"} :
+               (cred # "none" /\ Stronger(cred, c2) /\ Reach(m, cred, form, auth)) => Reach(m, c2, form, auth)
 
 \* the minted token classes form a chain
 Lattice == /\ Stronger("none", "public") /\ Stronger("public", "read")
@@ -166,26 +191,30 @@ Lattice == /\ Stronger("none", "public") /\ Stronger("public", "read")
            /\ Granted("none") = Granted("public")
 
 \* with authentication enabled a caller without a token reaches only public methods
-NoTokenOnlyPublic == (auth /\ cred = "none" /\ Reach(m, cred, auth)) => Required[m] = "public"
+NoTokenOnlyPublic == (auth /\ cred = "none" /\ Reach(m, cred, form, auth)) => Required[m] = "public"
 
 \* expired, malformed or wrongly signed tokens grant nothing
-BadTokensGrantNothing == (auth /\ cred \in BadCreds) => ~Reach(m, cred, auth)
+BadTokensGrantNothing == (auth /\ cred \in BadCreds) => ~Reach(m, cred, form, auth)
+
+\* ... and so does any token that is not presented as `Bearer <token>` / `?token=<token>`
+MalformedPresentationGrantsNothing == (auth /\ cred # "none" /\ form \notin WellFormed) => ~Reach(m, cred, form, auth)
 
 \* sensitive methods are out of reach of everything below write
 SensitiveProtected ==
-    (auth /\ m \in Sensitive /\ Reach(m, cred, auth)) => (Granted(cred) \cap {"write", "admin"} # {})
+    (auth /\ m \in Sensitive /\ Reach(m, cred, form, auth)) => (Granted(Eff(cred, form)) \cap {"write", "admin"} # {})
 
 \* exactness: reach is decided by the required level being granted, by nothing else
-Exact == auth => (Reach(m, cred, auth) <=> Required[m] \in Granted(cred))
+Exact == auth => (Reach(m, cred, form, auth) <=> Required[m] \in Granted(Eff(cred, form)))
 
-\* authentication disabled opens everything (by design: --rpc.skip-auth)
-AuthOffOpensAll == ~auth => Reach(m, cred, auth)
+\* authentication disabled opens everything to everybody (by design: --rpc.skip-auth), however odd the
+\* credential a caller (or a proxy in front of the node) attaches
+AuthOffOpensAll == ~auth => Reach(m, cred, form, auth)
 
 (***************************************************************************)
 (* Output for the driver                                                   *)
 (***************************************************************************)
-EmitCase == Emit => PrintT(<<"CASE", ToJson([m |-> m, cred |-> cred, auth |-> auth,
-                                            reach |-> Reach(m, cred, auth), refusal |-> Refusal(m, cred, auth),
+EmitCase == Emit => PrintT(<<"CASE", ToJson([m |-> m, cred |-> cred, form |-> form, auth |-> auth,
+                                            reach |-> Reach(m, cred, form, auth), refusal |-> Refusal(m, cred, form, auth),
                                             required |-> Required[m], sensitive |-> m \in Sensitive])>>)
 
 ASSUME Emit =>
